@@ -99,6 +99,8 @@ ADDENDA["C12"]["tech"] += "; Go race detector on one-shot runs"
 ADDENDA["C14"]["text"] += " Since the sixth round the plans are also observed as executed: generated C++ and Python (copy_to, list, Fortran order) write covering values that must decode to the same values under the reference plan."
 ADDENDA["C14"]["tech"] += "; executed layout of generated C++ and Python against the reference codec"
 ADDENDA["C15"]["text"] += " and aliases reachable only through one kind of position (map key, vector item, type argument, union case, enum base, array item)."
+for _k in ("C04", "C13", "C16", "C17"):
+    ADDENDA.setdefault(_k, dict(text="", tech=""))
 ADDENDA["C02"]["text"] += " The Python NDJSON writer is also fed Fortran-ordered arrays."
 ADDENDA["C03"]["text"] += " Adjacent stream steps in every combination of empty / non-empty streams run through all NDJSON / binary chains."
 ADDENDA["C04"]["text"] += " Unions whose cases are named aliases are among the bases."
